@@ -15,7 +15,7 @@ import (
 func init() { Registry["C07"] = C07 }
 
 var c07Names = []string{"x", "0y", "-z_9"} // names may start with a digit or a hyphen
-var c07Values = []string{"v", "a{2}", "[bc]+", "(?:p|q)", "{{0y}}w", "u{{-z_9}}", "{{0y}}{{-z_9}}", "[$_a-z]+", `\$1x${n}`}
+var c07Values = []string{"v", "a{2}", "[bc]+", "(?:p|q)", "{{0y}}w", "u{{-z_9}}", "{{0y}}{{-z_9}}", "{{0y}}-{{0y}}", "[$_a-z]+", `\$1x${n}`}
 
 // bodies: where the references stand
 var c07Bodies = [][]string{
@@ -51,6 +51,12 @@ func (c c07Case) program() (a string, b string) {
 	body := c07Bodies[c.Body]
 	var al []string
 	switch c.Placement {
+	case 4:
+		// white space after the value is not part of the value
+		for i, d := range defs {
+			al = append(al, d+[]string{" ", "\t ", "  \t"}[i%3])
+		}
+		al = append(al, body...)
 	case 0:
 		al = append(append(al, defs...), body...)
 	case 1:
@@ -137,7 +143,7 @@ func c07Cases(maxK int) []c07Case {
 				d[i] = s[p]
 			}
 			for b := range c07Bodies {
-				for pl := 0; pl < 4; pl++ {
+				for pl := 0; pl < 5; pl++ {
 					if pl == 2 && len(d) < 2 {
 						continue
 					}
@@ -230,6 +236,10 @@ func C07(r *core.Run) {
 		full := 0
 		for _, zv := range []string{"v", "a{2}", "[bc]+", "(?:p|q)"} {
 			chain := [][2]string{{"x", "{{0y}}w"}, {"0y", "u{{-z_9}}"}, {"-z_9", zv}}
+			if zv == "a{2}" || zv == "(?:p|q)" {
+				// a diamond: the last name is reached from the first one along two paths
+				chain[0][1] = "{{0y}}:{{-z_9}}"
+			}
 			for _, perm := range permutations(3) {
 				for _, body := range []int{0, 3} {
 					if full++; full > in.FullPerm {
@@ -316,8 +326,8 @@ func C07(r *core.Run) {
 	r.Cov["distinct_nontrivial"] = tot.Nontrivial
 	r.Cov["traces_validated_against_impl"] = validated
 	r.Cov["exhaustive"] = len(deaths) == 0
-	r.Cov["bound"] = map[string]any{"definitions": spec.MaxK, "values": c07Values, "bodies": len(c07Bodies), "placements": 4, "permutations": "all", "schedule_deviations": spec.Bound, "all_orders_programs": spec.FullPerm, "scheduled_sites": "the three map ranges of expandDefinitions"}
-	r.Cov["rule"] = "all acyclic definition sets of <= k definitions over 3 names x 7 values, every permutation of the definition lines, 10 reference bodies, 4 placements; generated under every order of the definition maps with <= d deviations (a few three-definition programs under ALL orders) and compared byte for byte with the generation of the hand-expanded program; non-trivial = the program changes under expansion"
+	r.Cov["bound"] = map[string]any{"definitions": spec.MaxK, "values": c07Values, "bodies": len(c07Bodies), "placements": 5, "permutations": "all", "schedule_deviations": spec.Bound, "all_orders_programs": spec.FullPerm, "scheduled_sites": "the three map ranges of expandDefinitions"}
+	r.Cov["rule"] = "all acyclic definition sets of <= k definitions over 3 names x 7 values, every permutation of the definition lines, 12 reference bodies, 5 placements (one with white space after the values); generated under every order of the definition maps with <= d deviations (a few three-definition programs under ALL orders) and compared byte for byte with the generation of the hand-expanded program; non-trivial = the program changes under expansion"
 	cs := c07Cases(2)
 	r.Cov["samples"] = []any{cs[0], cs[len(cs)/2], cs[len(cs)-1]}
 	r.Assume = append(r.Assume, "byte equality is sound because the hand-expanded program feeds the assembler the same line sequence")
